@@ -62,7 +62,7 @@ import (
 // Unmarshal a CE document (CBE or CTE) from a reader, creating an object of the same type as the template.
 // If template is nil, a best-guess type will be returned (likely a slice or map).
 func UnmarshalCE(reader io.Reader, template interface{}, config *configuration.Configuration) (decoded interface{}, err error) {
-	bufReader := bufio.NewReader(reader)
+	bufReader := bufio.NewReader(&stickyErrorReader{reader: reader})
 	firstByte, err := bufReader.Peek(1)
 	if err != nil {
 		return
@@ -73,6 +73,24 @@ func UnmarshalCE(reader io.Reader, template interface{}, config *configuration.C
 		return
 	}
 	return unmarshaler.Unmarshal(bufReader, template)
+}
+
+// stickyErrorReader keeps returning the first error that its reader returned.
+// bufio.Reader forgets an error that arrived together with data if a later
+// read succeeds or returns io.EOF, which would turn a failed read into a
+// successfully decoded document.
+type stickyErrorReader struct {
+	reader io.Reader
+	err    error
+}
+
+func (_this *stickyErrorReader) Read(p []byte) (n int, err error) {
+	if _this.err != nil {
+		return 0, _this.err
+	}
+	n, err = _this.reader.Read(p)
+	_this.err = err
+	return
 }
 
 // Unmarshal a CE document (CBE or CTE) from a byte slice, creating an object of the same type as the template.
